@@ -20,7 +20,7 @@ import (
 	"verif/ref"
 )
 
-const nasty = "q\"uote b\\ackslash new\nline tab\t é   \U0001F600"
+const nasty = "q\"uote b\\ackslash new\nline tab\t é   \U0001F600 line\\\ncontinued, cr\\\rlf\r\n end"
 
 func contents() map[string]any {
 	k1 := gen.Key("ed1")
